@@ -39,7 +39,12 @@ def safe_repr(obj: Any, maxlen: int = 200) -> str:
     """
 
     try:
-        s = repr(obj)
+        if type(obj).__repr__ is object.__repr__:
+            # the default repr embeds the memory address, which differs from run to run
+            cls = type(obj)
+            s = f"<{cls.__module__}.{cls.__qualname__} object>"
+        else:
+            s = repr(obj)
     except Exception:  # pragma: no cover - defensive
         s = f"<unreprable {type(obj).__name__}>"
     if len(s) <= maxlen:
